@@ -544,6 +544,12 @@ func (c *Compiler) applyUsesToNode(mod, nod, use parse.Node, parentStatus schema
 
 	refinedNodes := []parse.Node{}
 	for _, kid := range group.Children() {
+		switch kid.Type() {
+		case parse.NodeStatus, parse.NodeDescription, parse.NodeReference:
+			// These describe the grouping itself, not the node
+			// that uses it.
+			continue
+		}
 		newKid := kid.Clone(kidmod)
 		inheritCommonProperties(use, newKid, false)
 
